@@ -111,6 +111,46 @@ def explore(desc, tier, scratch=None, max_violations=3):
                 if res['diff'] and len(violations) < 50:
                     violations.append(_mk_violation(world, j, res['diff'],
                                                     _fault_spec(events, k, exc), oc2, history))
+            # ---- chained faults: a second failure while the first is being handled ------
+            nchain = {'quick': 2, 'thorough': 12}.get(tier, 2)
+            for (kA, excA, oc2) in _pick_chain_heads(tr['injected'], events, win, inv, nchain):
+                world.restore_rw()
+                fA = inject.Fault(kA, excA, tuple(identity(events[kA])))
+                resA = world.execute(j, fault=fA, keep_events=True)
+                st['recordings'] += 1
+                mA = resA['monitor']
+                if mA.fired is None or mA.diverged is not None:
+                    st['diverged'] += 1
+                    continue
+                rA = inject.admissible_limit(mA)
+                blockedA, _ = inject.other_windows(mA)
+                path = [e for e in mA.events[kA + 1:rA] if e['adm'] and
+                        not any(lo <= e['i'] < hi for lo, hi in blockedA)]
+                st['exception_path_sites'] = st.get('exception_path_sites', 0) + len(path)
+                cap = 4 if tier == 'quick' else 40
+                for n, eB in enumerate(path[:cap]):
+                    excB = (inject.OSERROR_FAMILY + inject.OTHER_FAMILY)[(n*5 + kA) % 12]
+                    world.restore_rw()
+                    chain = [inject.Fault(kA, excA, tuple(identity(events[kA]))),
+                             inject.Fault(eB['i'], excB, tuple(identity(eB)))]
+                    resB = world.execute(j, fault=chain, keep_events=False)
+                    st['injected_runs'] += 1
+                    st['chained_runs'] = st.get('chained_runs', 0) + 1
+                    mB = resB['monitor']
+                    if len(mB.fired_all) < 2 or mB.diverged is not None:
+                        st['diverged'] += 1
+                        continue
+                    ocB = outcome_class(world, resB)
+                    tr['injected'].append([[kA, eB['i']], [excA, excB], ocB, resB['diff']])
+                    nontrivial.add(util.canon([entry, entry_state, _cfg_class(inv), 'chain',
+                                               [eB['caller'], eB['line'], excB]]))
+                    if resB['diff'] and len(violations) < 50:
+                        specA = _fault_spec(events, kA, excA)
+                        specB = {'k': eB['i'], 'exc': excB, 'identity': identity(eB),
+                                 'occ': sum(1 for e in mA.events[kA + 1:eB['i'] + 1]
+                                            if identity(e) == identity(eB))}
+                        violations.append(_mk_violation(world, j, resB['diff'], [specA, specB], ocB,
+                                                        history))
             # ---- the execution that actually advances the history -----------
             world.restore_rw()
             sel = driver.resolve_selector(inv.get('fault'), events, r, l1, win)
@@ -139,6 +179,28 @@ def explore(desc, tier, scratch=None, max_violations=3):
     out['violations'] = [dict(v, desc=replay_desc(desc, v)) for v in violations[:max_violations]]
     out['sample'] = {'world': _brief(desc), 'trace': trace[:1]}
     return out
+
+
+def _pick_chain_heads(injected, events, win, inv, n):
+    """First faults whose handling we then disturb: in-window, delivered, distinct call
+    sites, spread over the run (first, last, middle ...)."""
+    heads = []
+    seen = set()
+    for rec in injected:
+        if len(rec) < 4 or not isinstance(rec[0], int):
+            continue
+        k, exc, oc = rec[0], rec[1], rec[2]
+        if win is None or k < win:
+            continue
+        site = (events[k]['caller'], events[k]['line'])
+        if site in seen:
+            continue
+        seen.add(site)
+        heads.append((k, exc, oc))
+    if len(heads) <= n:
+        return heads
+    idx = sorted(set(int(round(i*(len(heads) - 1)/float(max(1, n - 1)))) for i in range(n)))
+    return [heads[i] for i in idx]
 
 
 def _cfg_class(inv):
@@ -233,12 +295,13 @@ def replay(desc, scratch=None):
         for j, inv in enumerate(world.invs):
             world.pre_actions(j)
             spec = inv.get('fault')
-            if spec is not None and 'identity' not in spec:
+            if isinstance(spec, dict) and 'identity' not in spec:
                 spec = None          # an unresolved selector: treat as fault-free
             f = driver.fault_from_spec(spec)
             res = world.execute(j, fault=f, keep_events=False)
             oc = outcome_class(world, res)
-            if f is not None and res['monitor'].fired is None:
+            nwant = len(f) if isinstance(f, list) else (1 if f is not None else 0)
+            if len(res['monitor'].fired_all) < nwant:
                 diverged = True
             trace.append([j, inv['entry'], oc, res['diff']])
             if res['diff'] and viol is None:
@@ -339,9 +402,17 @@ def shrink(desc, scratch=None, budget=60):
             attempt(lambda c, i=i: c['invocations'][i].__setitem__('fault', None))
     # 4. simplify the fault: plain RuntimeError, first occurrence
     last = len(best['invocations']) - 1
-    if best['invocations'][last].get('fault'):
+    lf = best['invocations'][last].get('fault')
+    if isinstance(lf, list):
+        # a chain: is the second fault needed at all?
+        attempt(lambda c: c['invocations'][last].__setitem__('fault', c['invocations'][last]['fault'][0]))
+        lf = best['invocations'][last].get('fault')
+    if isinstance(lf, dict):
         attempt(lambda c: c['invocations'][last]['fault'].__setitem__('exc', 'RuntimeError'))
         attempt(lambda c: c['invocations'][last]['fault'].__setitem__('occ', 1))
+    elif isinstance(lf, list):
+        for i in range(len(lf)):
+            attempt(lambda c, i=i: c['invocations'][last]['fault'][i].__setitem__('exc', 'RuntimeError'))
     best['shrink_replays'] = used[0]
     return best
 
@@ -416,7 +487,8 @@ def signature(v):
     origin = {'function': oc[1], 'exc': oc[3]} if len(oc) >= 4 else None
     site = None
     if v.get('fault'):
-        site = v['fault']['identity']
+        f = v['fault']
+        site = [x['identity'] for x in f] if isinstance(f, list) else f['identity']
     return {'entry': v['entry'], 'vars': v['vars'], 'origin': origin, 'site': site}
 
 
